@@ -16,6 +16,7 @@ func checkC07(r *Run) {
 		ruleEncStatic(r, p)
 		ruleA9Event(r, p, true)
 		ruleA13(r, p, map[string]bool{"": true}, "c")
+		rulePoolBoundsAgree(r, p, "POOLBOUND", []string{"", "diode"})
 	}
 	r.Floor("A16", 150)
 	r.Floor("A9alloc", 120)
